@@ -622,6 +622,77 @@ def reused_conditions(case, rng):
     return violations, sessions[-1]
 
 
+def dates_across_runs(case, rng, prefix='c07'):
+    """date conditions kept by the program: a simulation that waited for one is aborted by a
+    failure before the date; in the next simulation the same object ends blocks and resumes
+    waits exactly at its date (also used by C08)"""
+    import usim
+    from usim import time, until, Scope
+    date = rng.choice([4, 6, 6.5])
+    cond = (time >= date) if rng.random() < 0.6 else (time == date)
+    first_use = rng.choice(['until', 'await-in-child', 'both', 'connective'])
+    abort_at = rng.choice([1, 2, 3])
+    log = []
+
+    class Abort(Exception):
+        pass
+
+    async def waits():
+        await cond
+
+    async def first():
+        async with Scope() as scope:
+            if first_use in ('await-in-child', 'both'):
+                scope.do(waits())
+            if first_use in ('until', 'both'):
+                async with until(cond):
+                    await (time + abort_at)
+                    raise Abort
+            elif first_use == 'connective':
+                async with until(cond | (time >= 50)):
+                    await (time + abort_at)
+                    raise Abort
+            else:
+                await (time + abort_at)
+                raise Abort
+
+    async def later():
+        async with Scope() as scope:
+            scope.do(resumed())
+            async with until(cond):
+                await (time + 20)
+            log.append(('block left', time.now))
+
+    async def resumed():
+        await cond
+        log.append(('await resumed', time.now))
+
+    sessions = [Session()]
+    outcome = sessions[0].run(first())
+    violations = []
+    if outcome[0] != 'exc' or not isinstance(outcome[1], (Abort, usim.Concurrent)):
+        violations.append({'mechanism': prefix + ':run-failed',
+                           'msg': 'first simulation ended with %r' % (outcome[1],)})
+    outcome = None
+    sessions.append(Session())
+    outcome = sessions[1].run(later())
+    what = 'a date condition (%s) whose first simulation (%s) was aborted at %r' % (
+        cond, first_use, abort_at)
+    if outcome[0] != 'ok':
+        violations.append({'mechanism': prefix + ':run-failed',
+                           'msg': '%s: the next simulation ended with %r' % (what, outcome[1])})
+    elif sorted(log) != [('await resumed', date), ('block left', date)]:
+        violations.append({'mechanism': 'c07:wrong-block-end' if prefix == 'c07'
+                           else 'c08:missed-wakeup',
+                           'msg': '%s: the next simulation logged %s, the date is %r' % (
+                               what, log, date)})
+    for sess in sessions:
+        violations += [dict(v) for v in sess.violations if v['mechanism'].startswith('kernel-')]
+    for vio in violations:
+        vio['case'] = dict(case)
+    return violations, sessions[-1]
+
+
 def own_notification_inside(case, rng):
     """the activity inside `until(n)` uses the same object n again inside the block - awaits it
     directly (the await abandoned by another, earlier interrupt), guards an inner block with it
@@ -718,7 +789,8 @@ def run_case(case):
         return {'evals': 1, 'sigs': [sess.signature()], 'violations': violations, 'sample': None,
                 'stats': {'blocks_using_their_own_notification': 1, 'activations': sess.n}}
     if case['index'] % 20 == 13:
-        violations, sess = reused_conditions(case, rng)
+        violations, sess = (dates_across_runs if case['index'] % 40 == 33
+                            else reused_conditions)(case, rng)
         return {'evals': 3, 'sigs': [sess.signature()], 'violations': violations, 'sample': None,
                 'stats': {'conditions_reused_by_later_simulations': 1, 'activations': sess.n}}
     if case['index'] % 5 == 4:
